@@ -98,6 +98,30 @@ def unwrap_prob(pe, ex):
         return unwrap_prob(inner, ex)
     if pe is None:
         raise AnalysisError('probability vector has no definition on the executed path')
+    # a module-level helper with a single return: inline its body (normalize(logits) -> exp(logits)/sum ...)
+    if isinstance(pe, ast.Call) and isinstance(pe.func, ast.Name) and pe.func.id in ex.fi.module.funcs:
+        h = ex.fi.module.funcs[pe.func.id]
+        rets = [r for r in walk_shallow(h.node) if isinstance(r, ast.Return)]
+        if len(rets) == 1 and len(h.params) == len(pe.args):
+            import copy
+            mapping = dict(zip(h.params, pe.args))
+            hdefs = {}
+            for st_ in h.body:
+                if isinstance(st_, ast.Assign) and len(st_.targets) == 1 and isinstance(st_.targets[0], ast.Name):
+                    hdefs[st_.targets[0].id] = st_.value
+
+            class Sub(ast.NodeTransformer):
+                def visit_Name(self, node):
+                    if node.id in mapping:
+                        return copy.deepcopy(mapping[node.id])
+                    if node.id in hdefs:
+                        return self.visit(copy.deepcopy(hdefs[node.id]))
+                    return node
+            return unwrap_prob(Sub().visit(copy.deepcopy(rets[0].value)), ex)
+    # X / np.sum(X) or X / X.sum() after inlining
+    if isinstance(pe, ast.BinOp) and isinstance(pe.op, ast.Div) and isinstance(pe.right, ast.Call) and \
+            U(pe.right.func).split('.')[-1] == 'sum' and pe.right.args and U(pe.right.args[0]) == U(pe.left):
+        return unwrap_prob(pe.left, ex)
     if isinstance(pe, ast.Call) and U(pe.func).split('.')[-1] == 'softmax' and pe.args:
         return pe.args[0], 'softmax'
     if isinstance(pe, ast.Call) and U(pe.func).split('.')[-1] == 'exp' and pe.args:
@@ -279,6 +303,7 @@ def check_helpers(ctx):
                 want = k * sym(sparam) * sym('sigma_cal(epsilon,delta)')
             ctx.ob('scale-helper', fi, stmt, val.eq(want), '[bounded=%s] returns %r; required %r' % (bounded, val, want),
                    construct='%s [bounded=%s]' % (U(stmt), bounded))
+    check_best_noise(ctx)
     for name, dist in (('gaussian_noise', 'normal'), ('laplace_noise', 'laplace')):
         fi = repo.func(MECH, 'Mechanism.' + name)
         ctx.analysed(fi)
@@ -298,3 +323,35 @@ def check_helpers(ctx):
                                                        U(scale) if scale is not None else None, U(size) if size is not None else None)
         ctx.ob('sampler-identity', fi, rets[0] if rets else fi.node, ok,
                'must draw %s noise with loc 0 and exactly the scale `%s` it is given; draws %s' % (dist, scale_p, detail))
+
+
+def check_best_noise(ctx):
+    """best_noise_distribution: each sampler it hands out is bound to exactly the value its own scale helper returned"""
+    fi = ctx.repo.func(MECH, 'Mechanism.best_noise_distribution')
+    ctx.analysed(fi)
+    defs = {}
+    for st in walk_shallow(fi.node):
+        if isinstance(st, ast.Assign) and len(st.targets) == 1 and isinstance(st.targets[0], ast.Name):
+            defs.setdefault(st.targets[0].id, []).append(st.value)
+    n = 0
+    for r in walk_shallow(fi.node):
+        if not isinstance(r, ast.Return) or not (isinstance(r.value, ast.Call) and U(r.value.func) in ('partial', 'functools.partial')):
+            continue
+        n += 1
+        c = r.value
+        sampler = U(c.args[0]) if c.args else None
+        arg = c.args[1] if len(c.args) > 1 else None
+        helper = {'self.laplace_noise': 'self.laplace_noise_scale', 'self.gaussian_noise': 'self.gaussian_noise_scale'}.get(sampler)
+        ok = False
+        src = None
+        if helper and isinstance(arg, ast.Name) and len(defs.get(arg.id, [])) == 1:
+            src = defs[arg.id][0]
+            ok = isinstance(src, ast.Call) and U(src.func) == helper and all(isinstance(a, ast.Name) and a.id in fi.params for a in src.args)
+        elif helper and isinstance(arg, ast.Call):
+            src = arg
+            ok = U(src.func) == helper and all(isinstance(a, ast.Name) and a.id in fi.params for a in src.args)
+        ctx.ob('sampler-identity', fi, r, ok,
+               'the sampler `%s` must be bound to exactly what `%s(...)` returned for the caller\'s own parameters; bound to `%s` = `%s`'
+               % (sampler, helper, U(arg) if arg is not None else None, U(src) if src is not None else '?'))
+    if n == 0:
+        raise AnalysisError('best_noise_distribution: no partial(...) return found')
